@@ -137,6 +137,10 @@ def run(ctx):
     if rc != 0:
         raise common.BuildError("c20 harness (concurrent) failed: " + err[-2000:])
     consume(ctx, out, "concurrent")
+    rc, out, err = common.run_harness(h, ["stress", ctx.tier], timeout=3000)
+    if rc != 0:
+        raise common.BuildError("c20 harness (stress) failed: " + err[-2000:])
+    consume(ctx, out, "stress")
     # runtimes created in different ways (options, warner, library subsets / load order), each ordered pair in its own process
     rc, out, err = common.run_harness(h, ["config", ctx.tier], timeout=3000)
     if rc != 0:
@@ -146,16 +150,21 @@ def run(ctx):
         hr = common.build_go("c20race", "cmd/c20", race=True)
         for procs in ("2", "8"):
             rc, out, err = common.run_harness(hr, ["concurrent", "race"], timeout=3000,
-                                              env={"GORACE": "halt_on_error=0 exitcode=0", "GOMAXPROCS": procs})
+                                              env={"GORACE": "halt_on_error=0 exitcode=0", "GOMAXPROCS": procs, "C20_NO_STDERR_CAPTURE": "1"})
             if rc != 0:
                 raise common.BuildError("c20 race harness failed: " + err[-2000:])
             consume(ctx, out, "race" + procs)
             rc, out2, err2 = common.run_harness(hr, ["config", "race"], timeout=3000,
-                                                env={"GORACE": "halt_on_error=0 exitcode=0", "GOMAXPROCS": procs})
+                                                env={"GORACE": "halt_on_error=0 exitcode=0", "GOMAXPROCS": procs, "C20_NO_STDERR_CAPTURE": "1"})
             if rc != 0:
                 raise common.BuildError("c20 race harness (config) failed: " + err2[-2000:])
             consume(ctx, out2, "race-config" + procs)
-            err = err + "\n" + err2
+            rc, out3, err3 = common.run_harness(hr, ["stress", "race"], timeout=3000,
+                                                env={"GORACE": "halt_on_error=0 exitcode=0", "GOMAXPROCS": procs, "C20_NO_STDERR_CAPTURE": "1"})
+            if rc != 0:
+                raise common.BuildError("c20 race harness (stress) failed: " + err3[-2000:])
+            consume(ctx, out3, "race-stress" + procs)
+            err = err + "\n" + err2 + "\n" + err3
             for k, blk in sorted(race_keys(err).items()):
                 ctx.count("race-report")
                 ctx.violation(k, "the race detector reports a data race between two runtimes used from two goroutines",
